@@ -281,6 +281,12 @@ _add("C09", S+"Recover", ["orphan-companion-only", "only-complete-partials-are-r
 _add("C11", "(*http.Client).Transmit")
 _add("C11", S+"partReceived", ["yes-needs-record-or-known-file", "same-version-only"])
 _add("C15", "(*main.serverApp).init$3", ["log-root-from-escaped-source", "roots-from-escaped-source"])
+_add("C10", "(*sts.ClientConf).propagate")
+_add("C12", "(*sts.ClientConf).propagate")
+_add("C10", "(*main.clientApp).init", ["order-default-is-written-back"])
+_add("C04", S+"Recover", ["validated-bodies-are-queued-before-revalidation-starts", "recovered-wait-bodies-are-validated"])
+_add("C07", H+"routeValidate")
+_add("C05", B+"recover$1", ["poll-looks-back-to-the-file-time", "polls-unchanged-files-only"])
 
 os.makedirs(os.path.join(V, "props"), exist_ok=True)
 for pid, p in P.items():
